@@ -157,7 +157,13 @@ def attach(rep, tier, seed):
         return
     run_proofs(rep, cfg["mods"], cfg["keys"], cfg.get("replays"))
     for (mods, keys) in cfg.get("groups_extra", []):  # separate registries: e.g. verified constructors vs their call-site abstraction
-        run_proofs(rep, mods, keys, {"try_to_merge_ops": "contracts.c06_native:replay_merge"} if "try_to_merge_ops" in keys else None)
+        rp = {}
+        if "try_to_merge_ops" in keys:
+            rp["try_to_merge_ops"] = "contracts.c06_native:replay_merge"
+        for k in keys:
+            if ":merge-decision" in k:
+                rp[k] = "contracts.c06_native:replay_merge_decision"
+        run_proofs(rep, mods, keys, rp or None)
     if cfg.get("explanation"):
         rep.explanation = cfg["explanation"]
     rep.assumptions += cfg.get("assumptions", [])
